@@ -251,6 +251,39 @@ theorem resume_from_modified_is_forgery (suiteByID : Nat → Option SuiteInfo) (
   obtain ⟨_, ⟨pt, old, hdec, _⟩, _⟩ := resume_keeps_version_suite hmac ctr suiteByID x keys ticket r.1 r.2 h
   exact modified_is_forgery hmac ctr issued keys ticket _ hdec hnew
 
+/-- **TLS 1.2: the decision is made on the NEGOTIATED version, never on the one the client offered.**
+    `Ctx12.helloVers` (`hs.clientHello.vers`, the client's maximum) has no influence at all: a client that offers
+    1.2 to a server capped at 1.0 / 1.1 is treated exactly like one whose maximum is the negotiated version. -/
+theorem resumption_ignores_offered_version (suiteByID : Nat → Option SuiteInfo) (x : Ctx12) (v : Nat)
+    (keys : List TicketKey) (ticket : Bytes) :
+    checkForResumption12 hmac ctr suiteByID { x with helloVers := v } keys ticket
+      = checkForResumption12 hmac ctr suiteByID x keys ticket := by
+  have hok : cipherSuiteOk { x with helloVers := v } = cipherSuiteOk x := by
+    funext c; simp [cipherSuiteOk, keyOk]
+  unfold checkForResumption12
+  simp only [hok]
+
+/-- **TLS 1.2: a ticket of another version is never resumed** — also when its version is the one the client
+    offered (`st.vers = x.helloVers`): a TLS 1.2 ticket presented to a listener that shares the ticket keys but
+    negotiates 1.1 leads to a full handshake. -/
+theorem other_version_never_resumes (suiteByID : Nat → Option SuiteInfo) (x : Ctx12) (keys : List TicketKey)
+    (ticket pt : Bytes) (old : Bool) (st : SessionState)
+    (hd : decryptTicket hmac ctr keys ticket = some (pt, old)) (hu : SessionState.unmarshal old pt = some st)
+    (hv : st.vers ≠ x.vers) :
+    checkForResumption12 hmac ctr suiteByID x keys ticket = none := by
+  cases h : checkForResumption12 hmac ctr suiteByID x keys ticket with
+  | none => rfl
+  | some r =>
+    obtain ⟨_, ⟨pt', old', hd', hu'⟩, hvers, _⟩ := resume_keeps_version_suite hmac ctr suiteByID x keys ticket r.1 r.2 h
+    rw [hd] at hd'
+    simp only [Option.some.injEq, Prod.mk.injEq] at hd'
+    obtain ⟨h1, h2⟩ := hd'
+    subst h1; subst h2
+    rw [hu] at hu'
+    simp only [Option.some.injEq] at hu'
+    subst hu'
+    exact absurd hvers hv
+
 /-- the invariant of the PSK identities loop -/
 theorem pskLoop_accept (hash13 : Nat → Option Nat) (binderOk : Nat → SessionState13 → Bool) (x : Ctx13)
     (keys : List TicketKey) (i : Nat) (ids : List Bytes) (j : Nat) (st : SessionState13)
@@ -694,8 +727,15 @@ def iss : Issue := { key := k1, iv := List.replicate 16 9, state := st.bytes }
 def iss2 : Issue := { key := k1, iv := List.replicate 16 9, state := [1] }
 def info (id : Nat) : Option SuiteInfo := if id = 0xc02f then some { ecdhe := true, ecSign := false, tls12 := true } else none
 def ctx : Ctx12 :=
-  { ticketsDisabled := false, now := 1700000100, vers := 0x0303, clientSuites := [0xc02b, 0xc02f], serverSuites := [0xc02f],
+  { ticketsDisabled := false, now := 1700000100, vers := 0x0303, helloVers := 0x0303, clientSuites := [0xc02b, 0xc02f], serverSuites := [0xc02f],
     clientAuth := 1, ecdheOk := true, ecSignOk := false, rsaSignOk := true, rsaDecryptOk := false }
+
+/-- a TLS 1.1 session of a client whose maximum is TLS 1.2 (server capped at 1.1) -/
+def stLow : SessionState :=
+  { vers := 0x0302, cipherSuite := 0xc013, createdAt := 1700000000, masterSecret := [7, 8, 9], certificates := [], usedOldKey := false }
+def issLow : Issue := { key := k1, iv := List.replicate 16 9, state := stLow.bytes }
+def infoCBC (id : Nat) : Option SuiteInfo := if id = 0xc013 then some { ecdhe := true, ecSign := false, tls12 := false } else none
+def ctxLow : Ctx12 := { ctx with vers := 0x0302, helloVers := 0x0303, clientSuites := [0xc02f, 0xc013], serverSuites := [0xc02f, 0xc013] }
 
 theorem mac_len (k m : Bytes) : (mac k m).length = 32 := by simp [mac]; omega
 theorem iss_wf : iss.WF mac ks := ⟨by decide, by decide, mac_len _ _⟩
@@ -732,6 +772,18 @@ example : checkForResumption12 Ex.mac Ex.ks Ex.info Ex.ctx ([Ex.k2] ++ Ex.k1 :: 
     = some ({ Ex.st with usedOldKey := true }, 0xc02f) :=
   issued_rotated_resumes Ex.mac Ex.ks Ex.info Ex.ctx Ex.st Ex.st_bounded Ex.st_resumable Ex.iss Ex.iss_wf rfl [Ex.k2] []
     (by decide) (by decide)
+-- offered ≠ negotiated version.  A TLS 1.1 session (CBC suite) with a client that offers 1.2 to a server capped at
+-- 1.1: `Resumable` holds and the ticket resumes (issued_current_resumes; resumption_ignores_offered_version) …
+example : Resumable Ex.infoCBC Ex.ctxLow Ex.stLow :=
+  ⟨rfl, by decide, rfl, by decide, by decide, ⟨_, rfl, by decide⟩, by decide, by decide⟩
+example : checkForResumption12 Ex.mac Ex.ks Ex.infoCBC Ex.ctxLow [Ex.k1] (Ex.issLow.ticket Ex.mac Ex.ks)
+    = some (Ex.stLow, 0xc013) := by decide
+example : Ex.ctxLow.helloVers ≠ Ex.ctxLow.vers := by decide
+-- … and other_version_never_resumes: the TLS 1.2 ticket `iss` (its version IS the offered one) on that connection
+example : checkForResumption12 Ex.mac Ex.ks Ex.info { Ex.ctxLow with clientSuites := [0xc02f], serverSuites := [0xc02f] } [Ex.k1]
+    (Ex.iss.ticket Ex.mac Ex.ks) = none :=
+  other_version_never_resumes Ex.mac Ex.ks Ex.info _ [Ex.k1] _ _ _ Ex.st
+    (decrypt_encrypt_current Ex.mac Ex.ks Ex.iss Ex.iss_wf []) (by decide) (by decide)
 -- no_resume_without_ticket / resume_from_modified_is_forgery
 example : checkForResumption12 Ex.mac Ex.ks Ex.info Ex.ctx [Ex.k2] (Ex.iss.ticket Ex.mac Ex.ks) = none :=
   no_resume_without_ticket Ex.mac Ex.ks Ex.info Ex.ctx [Ex.k2] _
